@@ -5,11 +5,11 @@ from . import kernel_edges, kernel_edit, kernel_functions, kernel_join, kernel_s
 # obligation of that job under the property (the clause letters G/L/E/T/C/F/O say which property each one carries)
 KERNELS = {
     "C01": [kernel_edit, kernel_split, kernel_join],
-    "C02": [kernel_split],
-    "C03": [kernel_split, kernel_edges],
+    "C02": [kernel_split, kernel_join],
+    "C03": [kernel_split, kernel_edges, kernel_join],
     "C04": [kernel_edit, kernel_split, kernel_join],
     "C05": [kernel_functions, kernel_join],
-    "C06": [kernel_split, kernel_functions],
+    "C06": [kernel_split, kernel_functions, kernel_join],
     "C08": [kernel_split, kernel_join],
 }
 
